@@ -20,7 +20,7 @@ RULE = ("a history of operations enter(runtime object: fresh | derived from the 
         "step the handler tag served must equal the model (TypeError when no handler); after every exit the model's "
         "current runtime serves again; at the end the thread's runtime is the one from before the outermost block; "
         "deriving never changes what the parent serves. part 'exhaustive': ALL well-nested histories up to length 4 "
-        "(quick) / 5 (thorough) over a reduced alphabet; part 'random': histories up to length 25 over the full alphabet. "
+        "(quick) / 6 (thorough) over a reduced alphabet; part 'random': histories up to length 25 over the full alphabet. "
         "Non-trivial = the history leaves a block (normally or by exception) and then runs a request, or re-enters an "
         "active object, or registers a default late; distinct = distinct history hash.")
 ASSUMPTIONS = [
@@ -199,9 +199,18 @@ def run_in_thread(ops, touched):
             import traceback
             box["r"] = (f"unexpected {type(e).__name__}: {e} :: {traceback.format_exc()[-600:]}", set())
 
+    before = set(getattr(runtime, "_DEFAULT_HANDLERS", {}))
     t = threading.Thread(target=target)
     t.start()
     t.join()
+    # housekeeping only (keeps the per-case cost constant): forget this case's request types and thread
+    table = getattr(runtime, "_DEFAULT_HANDLERS", None)
+    if isinstance(table, dict):
+        for k in set(table) - before:
+            table.pop(k, None)
+    threads = getattr(runtime, "_RUNTIMES", None)
+    if isinstance(threads, dict):
+        threads.pop(t, None)
     return box["r"]
 
 
@@ -236,7 +245,7 @@ ALPHABET_SMALL = [("enter", "new", 0), ("enter", "active", 0), ("enter", "reused
 
 
 def enum_small(ctx):
-    n = 4 if ctx.tier == "quick" else 5
+    n = 4 if ctx.tier == "quick" else 6
     k = 0
     total = 0
     for length in range(1, n + 1):
